@@ -55,6 +55,11 @@ CLAIMED = {
    note="HTTP Stop() waits 5 s by construction, so listener walks use at most two HTTP listeners. Ports are whatever loopback ports are free at run time. Service-defined listener start messages are sent to the service client but not answered.",
    technique="TLA+ spec + exhaustive TLC; walks replayed into the real code incl. real sockets; TLC trace validation",
    design="DESIGN.md §5 C16"),
+ "C12": dict(
+   text="HttpListener.tla defines admission as a function of configuration features and request features (Admit, ExtIP) with the four clauses as invariants; TLC model-checks the complete product of 768 configurations x 4320 requests (3.3M cells). Replayed on the listener's own gin engine in-process: every configuration with the matching request and each single-feature deviation (13k cells) plus seeded random cells of the product (9k per quick run, 110k thorough); each request carries a valid registration of a fresh agent so that reaching the agent protocol is observable as a new session whose recorded address is read back; rejected requests are checked to be 404 and to change nothing (full snapshot diff); response headers are compared with their configured full values. TLC validates every observation strictly and with the monitor.",
+   note="In-process serving (RemoteAddr set by the harness), no TLS, no real sockets for this property (C16 uses real ports). Header values are compared case-insensitively by design of the code; value-case variants are not generated. The run-time edit clause is exercised in C16.",
+   technique="TLA+ admission function + exhaustive TLC over the feature product; cells replayed into the real handler; TLC trace validation",
+   design="DESIGN.md §5 C12"),
 }
 NOT_BUILT = "machinery not built yet (construction order in DESIGN.md §8); not claimed until its check runs clean on the unchanged tree"
 
